@@ -115,6 +115,7 @@ func (a *Analyzer) onStateChange(n *nodeState, r *ev.Rec) {
 		a.rep.Stats["leader-completeness-checks"] += int64(len(cm))
 		n.rounds = map[uint64]bool{}
 		n.roundDone = map[uint64]uint64{}
+		n.unreach = nil
 		n.leaderSince = r.Q
 	}
 	if st.State != "C" {
@@ -383,6 +384,7 @@ func (a *Analyzer) onRound(n *nodeState, r *ev.Rec) {
 	n.rounds[r.ID] = true
 	if n.roundDone == nil {
 		n.roundDone = map[uint64]uint64{}
+		n.unreach = nil
 	}
 	n.roundDone[r.ID] = r.Round
 	// the promoted-to-be node holds the leader's log up to the round's target
